@@ -70,4 +70,32 @@ theorem C01_no_overlap (inp : RunInput) (s : Sys) (hr : PReach inp s) (w w' : Na
     unfold cTerm at hterm; omega
   | _ => simp [Ev.isStartOf] at hp
 
+/-! ### non-vacuity -/
+
+/-- a diamond (`4 → {1, 2} → 0`) whose sink also has a calc_dep (`3`, which delivers the extra task_dep `5`) and a
+    setup-task (`6`); two worker threads -/
+def exDiamond : RunInput :=
+  { taskDep := fun n => if n = 4 then [1, 2] else if n = 1 ∨ n = 2 then [0] else []
+    calcDep := fun n => if n = 4 then [3] else []
+    setup := fun n => if n = 4 then [6] else []
+    calcRes := fun n => if n = 3 then { tasks := [5] } else {}
+    sel := [4], runner := .thread, numProc := 2 }
+
+/-- the sink really starts (on worker 1), after its static deps, the delivered dep `5` and the setup-task `6`, and the
+    run completes -/
+example : ∃ s, PReach exDiamond s ∧ s.events.contains (Ev.start 4 1) = true ∧
+    s.events.contains (Ev.success 5) = true ∧ s.events.contains Ev.complete = true :=
+  ⟨_, autoRun_preach (by decide) false true 400 _ PReach.init, by decide +kernel⟩
+
+/-- a reachable state in which both workers execute (the two independent middle tasks): the hypotheses of
+    `C01_no_overlap` are satisfiable -/
+example : ∃ s, PReach exDiamond s ∧ (s.workers 0 = .running 1 ∧ s.workers 1 = .running 2 ∨
+    s.workers 0 = .running 2 ∧ s.workers 1 = .running 1) :=
+  ⟨_, autoRun_preach (by decide) false true 101 _ PReach.init, by decide +kernel⟩
+
+/-- the same graph under the serial runner -/
+example : ∃ s, Reach { exDiamond with runner := .serial, numProc := 0 } s ∧
+    s.events.contains (Ev.start 4 0) = true ∧ s.events.contains Ev.complete = true :=
+  ⟨_, autoRun_reach (by decide) false false 400 _ Reach.init, by decide +kernel⟩
+
 end DoitModel.C01
